@@ -99,6 +99,36 @@ impl<X: ToB + ?Sized> ToB for &X {
     }
 }
 
+/// a borrowed view of an owned path, whatever the family
+trait PathView {
+    type V<'a> where Self: 'a;
+    fn as_path_view(&self) -> Self::V<'_>;
+}
+impl<T: for<'enc> Encoding<'enc>> PathView for PathBuf<T> {
+    type V<'a> = &'a Path<T> where Self: 'a;
+    fn as_path_view(&self) -> &Path<T> {
+        self.as_path()
+    }
+}
+impl<T: for<'enc> Utf8Encoding<'enc>> PathView for Utf8PathBuf<T> {
+    type V<'a> = &'a Utf8Path<T> where Self: 'a;
+    fn as_path_view(&self) -> &Utf8Path<T> {
+        self.as_path()
+    }
+}
+impl PathView for TypedPathBuf {
+    type V<'a> = TypedPath<'a>;
+    fn as_path_view(&self) -> TypedPath<'_> {
+        self.to_path()
+    }
+}
+impl PathView for Utf8TypedPathBuf {
+    type V<'a> = Utf8TypedPath<'a>;
+    fn as_path_view(&self) -> Utf8TypedPath<'_> {
+        self.to_path()
+    }
+}
+
 /// how a family prints under a handful of format specs (width, fill, alignment, precision): the lossy
 /// `display()` adapter for the byte families, the path itself for the UTF-8 families
 trait FmtSpecs {
@@ -242,6 +272,13 @@ macro_rules! transcript_path {
         $t.push(format!("with_extension {}", show(&p.with_extension($a), w)));
         $t.push(format!("to_path_buf {}", show(&p.to_path_buf(), w)));
         $t.push(format!("y.display-specs {}", p.fmt_specs()));
+        {
+            // the component ITERATORS carry their own Eq / PartialOrd impls (not the Iterator adaptors)
+            let j = p.join($a);
+            let jp = j.as_path_view();
+            let (ci, cj) = (p.components(), jp.components());
+            $t.push(format!("iter-ord {:?} {:?} {} {}", PartialOrd::partial_cmp(&ci, &cj), PartialOrd::partial_cmp(&cj, &ci), ci == cj, ci == p.components()));
+        }
         #[cfg(feature = "std")]
         {
             $t.push(format!("absolutize {}", show_o(p.absolutize().ok(), w)));
@@ -1596,6 +1633,45 @@ pub fn c19(ctx: &mut Ctx, tier: &str, _seed: u64) {
                 $ctx.fail("lossy-display-equals-std-lossy", None, format!("comps {} {}", $e, hex(s)), format!("\"{}\" vs \"{}\"", p.to_string_lossy(), lossy_std));
             }
         }};
+    }
+    // wrapping a raw value as a path never changes how it compares: raw-vs-path (either side) = path-vs-path
+    {
+        let mut rng = Rng::new(0xc19b);
+        let pool: Vec<Vec<u8>> = {
+            let mut v: Vec<Vec<u8>> = dom.iter().filter(|s| !s.is_empty()).step_by(11).cloned().collect();
+            for x in [&b"foo/bar"[..], b"foo.txt", b"a//b/.", b"a/b", b"-rf", b"/usr", b"c:/x/y", br"C:\x\y", b"a.b", b"a/b/"] {
+                v.push(x.to_vec());
+            }
+            v
+        };
+        for a in &pool {
+            let mut others = gen::respell(a, false, &mut rng);
+            others.push(rng.pick(&pool).clone());
+            others.push(rng.pick(&pool).clone());
+            for b in &others {
+                ctx.evals += 1;
+                macro_rules! raw_vs {
+                    ($P:ty, $B:ty, $ra:expr, $rb:expr, $raw:ty) => {{
+                        let (ra, rb): (&$raw, &$raw) = ($ra, $rb);
+                        let (pa, pb): (&$P, &$P) = (<$P>::new(ra), <$P>::new(rb));
+                        let (xa, xb): ($B, $B) = (pa.to_path_buf(), pb.to_path_buf());
+                        let (eq, ord) = (pa == pb, pa.partial_cmp(pb));
+                        let rev = ord.map(|o| o.reverse());
+                        (*pa == *rb) == eq && (*rb == *pa) == eq && (xa == *rb) == eq && (*rb == xa) == eq
+                            && PartialOrd::partial_cmp(pa, rb) == ord && PartialOrd::partial_cmp(rb, pa) == rev
+                            && PartialOrd::partial_cmp(&xa, rb) == ord && PartialOrd::partial_cmp(rb, &xa) == rev
+                            && PartialOrd::partial_cmp(ra, pb) == ord && PartialOrd::partial_cmp(ra, &xb) == ord
+                    }};
+                }
+                let mut ok = raw_vs!(UnixPath, UnixPathBuf, a.as_slice(), b.as_slice(), [u8]) && raw_vs!(WindowsPath, WindowsPathBuf, a.as_slice(), b.as_slice(), [u8]);
+                if let (Ok(sa), Ok(sb)) = (std::str::from_utf8(a), std::str::from_utf8(b)) {
+                    ok = ok && raw_vs!(Utf8UnixPath, Utf8UnixPathBuf, sa, sb, str) && raw_vs!(Utf8WindowsPath, Utf8WindowsPathBuf, sa, sb, str);
+                }
+                if !ok {
+                    ctx.fail("wrapping-keeps-comparisons", None, format!("rel u {} {}", hex(a), hex(b)), String::new());
+                }
+            }
+        }
     }
     // cloning INTO an existing value (clone_into / clone_from, also through Cow) overwrites it with exactly the
     // source's bytes, whatever the target held before: in particular an equal path spelled differently
